@@ -163,6 +163,16 @@ func (r *Runner) reuseReplay() {
 
 var inSibling bool
 
+// decoders of arbitrary text (their handlers and models accept every string): one case in 24 is
+// followed by a variant in which one character is replaced by a wider code point with the same low byte
+var textDecodeOps = map[string]int{"addr.dec": 2, "addr.dec58": 1, "addr.decbech": 1, "wif.dec": 1, "xkey.deser": 1, "b58.dec": 1, "b58c.dec": 1, "bech32.dec": 1} // value: 1 + index of the text argument
+
+func unhxPlain(s string) []byte {
+	b := make([]byte, len(s)/2)
+	fmt.Sscanf(s, "%x", &b)
+	return b
+}
+
 var siblingOps = map[string]bool{"bip39.seed": true, "bip32.master": true, "sha256": true, "dsha256": true, "hash160": true, "rmd160": true}
 
 func isHexArg(s string) bool {
@@ -184,6 +194,20 @@ func isHexArg(s string) bool {
 func (r *Runner) maybeSibling(op string, args []string, tag string, mode Mode) {
 	// only operations whose handlers and model accept arguments of every length (checked one by one:
 	// a shifted boundary must not leave the operation's protocol)
+	if ti := textDecodeOps[op] - 1; !inSibling && !arenaOff && ti >= 0 && len(args) > ti && isHexArg(args[ti]) && args[ti] != "-" {
+		r.textCounter++
+		if r.textCounter%24 == 0 {
+			vs := wideRuneVariants(string(unhxPlain(args[ti])), r, 1)
+			if len(vs) > 0 {
+				sib := append([]string{}, args...)
+				sib[ti] = fmt.Sprintf("%x", vs[(r.textCounter/24)%len(vs)])
+				inSibling = true
+				r.DoMode(op, sib, tag+"/wide-rune", false, "a character replaced by a code point with the same low byte", mode)
+				inSibling = false
+			}
+		}
+		return
+	}
 	if inSibling || arenaOff || !siblingOps[op] {
 		return
 	}
